@@ -68,7 +68,7 @@ int EGLPNUM_TYPENAME_ILLformat_error_create (
 		ILL_SAFE_MALLOC (error->theLine, len + 2, char);
 
 		strcpy (error->theLine, theLine);
-		if (error->theLine[len - 1] != '\n')
+		if (len == 0 || error->theLine[len - 1] != '\n')
 		{
 			error->theLine[len] = '\n';
 			error->theLine[len + 1] = '\0';
